@@ -731,6 +731,8 @@ struct SendMeta {
 struct Round {
     sched_seq: u64,
     sends: Vec<u64>,
+    /// which peer each send of the round went to
+    peer_of: BTreeMap<u64, PeerId>,
     waiting_at_start: Vec<usize>,
     /// first outcome delivered per send: the valid single header it reported (if any), and
     /// whether the reporting peer was still trusted at delivery time
@@ -1029,7 +1031,7 @@ impl Sim {
                         if self.rounds.last().is_some_and(|r| r.completed_ms.is_some() && r.value.is_none()) {
                             ctx.probe("head_round_retried_after_no_valid_answer");
                         }
-                        self.rounds.push(Round { sched_seq: rec.sched_seq, sends: vec![], waiting_at_start: waiting, answers: BTreeMap::new(), value: None, completed_ms: None, flipped_while_pending: false });
+                        self.rounds.push(Round { sched_seq: rec.sched_seq, sends: vec![], peer_of: BTreeMap::new(), waiting_at_start: waiting, answers: BTreeMap::new(), value: None, completed_ms: None, flipped_while_pending: false });
                         ctx.ev("round.start", self.rounds.len() as u64 - 1, 0);
                         if self.eligible_since.is_some() {
                             // the clause held: a round started while one was due
@@ -1039,6 +1041,13 @@ impl Sim {
                         self.rounds.len() - 1
                     }
                 };
+                // one request (and so one vote) per trusted peer, however many connections it has
+                ctx.oracle("C31.one_request_per_peer");
+                if self.rounds[ri].peer_of.values().any(|p| *p == rec.peer) {
+                    ctx.violation("C31", "one_request_per_peer", "peer_asked_twice",
+                        format!("head round {ri}: request #{} goes to a peer that was already asked in this round", rec.id));
+                }
+                self.rounds[ri].peer_of.insert(rec.id, rec.peer);
                 self.rounds[ri].sends.push(rec.id);
                 meta.round = Some(ri);
             } else {
@@ -1151,8 +1160,16 @@ impl Sim {
         // The rule over the answers of this round delivered so far. Two readings of "reported by
         // trusted peers" when a peer lost the trusted flag between send and answer: its answer
         // counts (A) or not (B). NARROWER READING: a value acceptable under either is accepted.
-        let all: Vec<&ExtendedHeader> = r.answers.values().filter_map(|(h, _)| h.as_ref()).collect();
-        let still_trusted: Vec<&ExtendedHeader> = r.answers.values().filter(|(_, t)| *t).filter_map(|(h, _)| h.as_ref()).collect();
+        // one vote per peer: only the answer to a peer's first request of the round counts
+        let mut voted: BTreeSet<PeerId> = BTreeSet::new();
+        let first_per_peer: Vec<&(Option<ExtendedHeader>, bool)> = r
+            .answers
+            .iter()
+            .filter(|(id, _)| r.peer_of.get(*id).is_none_or(|p| voted.insert(*p)))
+            .map(|(_, v)| v)
+            .collect();
+        let all: Vec<&ExtendedHeader> = first_per_peer.iter().filter_map(|(h, _)| h.as_ref()).collect();
+        let still_trusted: Vec<&ExtendedHeader> = first_per_peer.iter().filter(|(_, t)| *t).filter_map(|(h, _)| h.as_ref()).collect();
         let (mut acceptable, below_a) = best_head(&all);
         let (acc_b, _) = best_head(&still_trusted);
         acceptable.extend(acc_b);
